@@ -720,6 +720,51 @@ func runC02(p *an.Prog, r *an.Run, tier string) {
 		r.Check(len(bad) == 0, "peer-ids", "(*pool.VipnodePool).Update", updPeers[0].Pos(), "UpdateNodePeers(nodeID, Peers(req.PeerInfo).IDs())", "%s", strings.Join(bad, "; "))
 	}
 
+	// the client is debited exactly what its peers were credited (the same pairing obligations as C01, for this property's clause
+	// "the client is debited exactly the sum ... a failed update is all-or-nothing" as far as structure can tell)
+	checkPairing(p, r, onUpdate, false)
+
+	// lastseen-writers: outside the drivers a node record is only ever (re)written with LastSeen = time.Now();
+	// writing back an older record rewinds LastSeen and the same stretch of time is billed again
+	{
+		var bad []string
+		n := 0
+		for _, fn := range p.Repo {
+			if inDriverPkg(fn) || takesTestingT(fn) || strings.HasSuffix(p.File(fn.Pos()), "testsuite.go") || isTestDoublePkg(fn) {
+				continue
+			}
+			for _, c := range an.Calls(fn, false) {
+				if !isStoreMethodNamed(an.CallObj(c), "SetNode") {
+					continue
+				}
+				n++
+				arg := methodArgs(c)[0]
+				al := allocOfValue(arg)
+				okNow := false
+				if al != nil {
+					for _, ref := range *al.Referrers() {
+						if fa, ok := ref.(*ssa.FieldAddr); ok && an.FieldOf(fa) != nil && an.FieldOf(fa).Name() == "LastSeen" {
+							for _, r2 := range *fa.Referrers() {
+								if st, ok := r2.(*ssa.Store); ok && p.Derives(0, st.Val).CallTo(func(f *types.Func) bool { return an.IsFunc(f, "time", "Now") }) != nil {
+									okNow = true
+								}
+							}
+						}
+						if st, ok := ref.(*ssa.Store); ok && st.Addr == ssa.Value(al) {
+							okNow = false // whole record copied from elsewhere
+							bad = append(bad, "SetNode in "+an.FuncName(fn)+" at "+p.Pos(c.Pos())+" writes back a node record copied from an earlier read: its LastSeen is rewound and the time since then is charged again at the next keep-alive")
+						}
+					}
+				}
+				if !okNow {
+					bad = append(bad, "SetNode in "+an.FuncName(fn)+" at "+p.Pos(c.Pos())+" stores a node whose LastSeen is not time.Now()")
+				}
+			}
+		}
+		r.Floor("setnode-callers", n, 1)
+		r.Check(len(bad) == 0, "lastseen-writers", "pool", token.NoPos, "node records are only written with LastSeen = now outside the drivers", "%s", strings.Join(dedup(bad), "; "))
+	}
+
 	// lastseen-written
 	drivers := p.Implementations(p.Iface("pool/store", "Store"))
 	r.Floor("drivers", len(drivers), 2)
